@@ -12,9 +12,30 @@ use serde::{Deserialize, Serialize};
 use serde_json::Value;
 use std::sync::Arc;
 
-struct P {
+/// alignment marker of the payload: the data offset inside the Arc allocation depends on it
+trait Al: Default + 'static {
+    const NAME: &'static str;
+}
+impl Al for () {
+    const NAME: &'static str = "align8";
+}
+#[derive(Default)]
+#[repr(align(64))]
+struct A64;
+impl Al for A64 {
+    const NAME: &'static str = "align64";
+}
+
+struct P<A> {
     dc: DcHeap,
     tag: u64,
+    _a: A,
+}
+
+impl<A: Al> P<A> {
+    fn new(tag: u64) -> Self {
+        P { dc: DcHeap::new(tag), tag, _a: A::default() }
+    }
 }
 
 #[derive(Clone, Copy, Debug, Serialize, Deserialize, PartialEq, Eq, Hash, PartialOrd, Ord)]
@@ -25,14 +46,14 @@ enum Kind {
     OSome,
 }
 
-enum H {
-    Arc(CArc<P>),
-    Some(CArcSome<P>),
+enum H<A: 'static> {
+    Arc(CArc<P<A>>),
+    Some(CArcSome<P<A>>),
     OArc(CArc<c_void>),
     OSome(CArcSome<c_void>),
 }
 
-impl H {
+impl<A: Al> H<A> {
     fn kind(&self) -> Kind {
         match self {
             H::Arc(_) => Kind::Arc,
@@ -54,8 +75,8 @@ impl H {
     /// instance pointer as the *Rust API* reports it
     fn api_ptr(&self) -> usize {
         match self {
-            H::Arc(h) => h.as_ref().map(|r| r as *const P as usize).unwrap_or(0),
-            H::Some(h) => &**h as *const P as usize,
+            H::Arc(h) => h.as_ref().map(|r| r as *const P<A> as usize).unwrap_or(0),
+            H::Some(h) => &**h as *const P<A> as usize,
             H::OArc(h) => h.as_ref().map(|r| r as *const c_void as usize).unwrap_or(0),
             H::OSome(h) => h.as_ref() as *const c_void as usize,
         }
@@ -80,25 +101,29 @@ enum Op {
     Drop(usize),
 }
 
-struct Sut {
+struct Sut<A> {
     max_handles: usize,
     max_allocs: usize,
+    /// teardown order: false = handles first, then the retained Arcs (the payload goes with a std Arc);
+    /// true = retained Arcs first, so that the LAST HANDLE of every allocation has to destroy the payload
+    handles_last: bool,
+    _a: std::marker::PhantomData<fn() -> A>,
 }
 
 type V = Result<(), (String, String)>;
 
-struct World {
-    retained: Vec<Arc<P>>,
+struct World<A: 'static> {
+    retained: Vec<Arc<P<A>>>,
     payload_ids: Vec<usize>,
-    handles: Vec<(H, Option<usize>)>,
+    handles: Vec<(H<A>, Option<usize>)>,
     ref_clone: usize,
     ref_drop: usize,
 }
 
-impl World {
-    fn new_alloc(&mut self) -> Arc<P> {
+impl<A: Al> World<A> {
+    fn new_alloc(&mut self) -> Arc<P<A>> {
         let tag = 100 + self.retained.len() as u64;
-        let p = P { dc: DcHeap::new(tag), tag };
+        let p = P::<A>::new(tag);
         self.payload_ids.push(p.dc.id);
         let a = Arc::new(p);
         self.retained.push(a.clone());
@@ -107,8 +132,8 @@ impl World {
     /// retain an Arc for an allocation that was created inside cglue (From<T>), via the raw pointer
     fn adopt(&mut self, raw: usize) {
         unsafe {
-            Arc::increment_strong_count(raw as *const P);
-            let a = Arc::from_raw(raw as *const P);
+            Arc::increment_strong_count(raw as *const P<A>);
+            let a = Arc::from_raw(raw as *const P<A>);
             self.payload_ids.push(a.dc.id);
             self.retained.push(a);
         }
@@ -159,7 +184,7 @@ impl World {
     }
 }
 
-impl Sut {
+impl<A: Al> Sut<A> {
     fn enabled(&self, handles: &[(Kind, Option<usize>)], allocs: usize) -> Vec<Op> {
         let mut v = Vec::new();
         let room = handles.len() < self.max_handles;
@@ -202,7 +227,7 @@ impl Sut {
         let drops = DropScope::new();
         // reference function pointers: those of a handle created by this very instantiation
         let (ref_clone, ref_drop) = {
-            let probe = H::Arc(CArc::<P>::from(Arc::new(P { dc: DcHeap::new(0), tag: 0 })));
+            let probe = H::Arc(CArc::<P<A>>::from(Arc::new(P::<A>::new(0))));
             let v = probe.view();
             (v.clone_fn.map(|f| f as usize).unwrap_or(0), v.drop_fn.map(|f| f as usize).unwrap_or(0))
         };
@@ -214,7 +239,7 @@ impl Sut {
             match *op {
                 Op::NewValue(some) => {
                     let tag = 100 + w.retained.len() as u64;
-                    let p = P { dc: DcHeap::new(tag), tag };
+                    let p = P::<A>::new(tag);
                     let h = if some { H::Some(CArcSome::from(p)) } else { H::Arc(CArc::from(p)) };
                     let raw = h.view().instance as usize;
                     if raw == 0 {
@@ -239,7 +264,7 @@ impl Sut {
                     };
                     w.handles.push((H::Arc(CArc::from(Some(arc))), Some(a)));
                 }
-                Op::FromOptNone => w.handles.push((H::Arc(CArc::from(None::<Arc<P>>)), None)),
+                Op::FromOptNone => w.handles.push((H::Arc(CArc::from(None::<Arc<P<A>>>)), None)),
                 Op::Default => w.handles.push((H::Arc(CArc::default()), None)),
                 Op::Clone(i) => {
                     let al = w.handles[i].1;
@@ -321,34 +346,71 @@ impl Sut {
         let mut sorted = shape.clone();
         sorted.sort();
         let key = digest(&(sorted, nalloc));
-        // teardown: handles first (in slot order), then the retained Arcs
+        // teardown
         let World { retained, payload_ids, handles, .. } = std::mem::ManuallyDrop::into_inner(w);
         let mut retained = std::mem::ManuallyDrop::new(retained);
         let mut handles = std::mem::ManuallyDrop::new(handles);
-        let mut j = 0;
-        while !handles.is_empty() {
-            let (h, al) = handles.remove(0);
-            j += 1;
-            drop(h);
-            if let Some(a) = al {
-                if drops.count(payload_ids[a]) != 0 {
-                    return Err(("arc:early_drop".into(), format!("teardown: payload of allocation {} dropped when handle {} went away although a retained Arc exists", a, j - 1)));
+        if self.handles_last {
+            // the retained Arcs go first: from here on the handles are the only owners, and the last
+            // handle of every allocation has to destroy the payload — exactly then, exactly once
+            let weak: Vec<std::sync::Weak<P<A>>> = alloc::untracked(|| retained.iter().map(Arc::downgrade).collect());
+            let mut a = 0usize;
+            while !retained.is_empty() {
+                let r = retained.remove(0);
+                let left = handles.iter().filter(|(_, x)| *x == Some(a)).count();
+                drop(r);
+                let want = if left == 0 { 1 } else { 0 };
+                if drops.count(payload_ids[a]) != want {
+                    return Err(("arc:payload_drop".into(), format!("teardown: after the retained Arc of allocation {} went away with {} handle(s) left, its payload was dropped {} time(s)", a, left, drops.count(payload_ids[a]))));
+                }
+                a += 1;
+            }
+            let mut j = 0usize;
+            while !handles.is_empty() {
+                let (h, al) = handles.remove(0);
+                drop(h);
+                if let Some(a) = al {
+                    let left = handles.iter().filter(|(_, x)| *x == Some(a)).count();
+                    let sc = weak[a].strong_count();
+                    if sc != left {
+                        return Err(("arc:count".into(), format!("teardown: allocation {}: strong count {} with {} handle(s) left and no retained Arc", a, sc, left)));
+                    }
+                    let want = if left == 0 { 1 } else { 0 };
+                    if drops.count(payload_ids[a]) != want {
+                        let sig = if left == 0 { "arc:payload_drop" } else { "arc:early_drop" };
+                        return Err((sig.into(), format!("teardown: after handle {} of allocation {} went away with {} handle(s) left, its payload was dropped {} time(s) (the last handle, and only it, destroys the value)", j, a, left, drops.count(payload_ids[a]))));
+                    }
+                }
+                j += 1;
+            }
+            alloc::untracked(|| drop(weak));
+        } else {
+            // handles first (in slot order), then the retained Arcs
+            let mut j = 0;
+            while !handles.is_empty() {
+                let (h, al) = handles.remove(0);
+                j += 1;
+                drop(h);
+                if let Some(a) = al {
+                    if drops.count(payload_ids[a]) != 0 {
+                        return Err(("arc:early_drop".into(), format!("teardown: payload of allocation {} dropped when handle {} went away although a retained Arc exists", a, j - 1)));
+                    }
                 }
             }
-        }
-        let mut a = 0usize;
-        while !retained.is_empty() {
-            let r = retained.remove(0);
-            a += 1;
-            let a = a - 1;
-            if Arc::strong_count(&r) != 1 {
-                let sc = Arc::strong_count(&r);
-                std::mem::forget(r);
-                return Err(("arc:final_count".into(), format!("teardown: allocation {} has strong count {} after all handles were dropped (expected 1)", a, sc)));
-            }
-            drop(r);
-            if drops.count(payload_ids[a]) != 1 {
-                return Err(("arc:payload_drop".into(), format!("teardown: payload of allocation {} dropped {} times", a, drops.count(payload_ids[a]))));
+            let mut a = 0usize;
+            while !retained.is_empty() {
+                let r = retained.remove(0);
+                a += 1;
+                let a = a - 1;
+                if Arc::strong_count(&r) != 1 {
+                    let sc = Arc::strong_count(&r);
+                    std::mem::forget(r);
+                    return Err(("arc:final_count".into(), format!("teardown: allocation {} has strong count {} after all handles were dropped (expected 1)", a, sc)));
+                }
+                drop(r);
+                if drops.count(payload_ids[a]) != 1 {
+                    return Err(("arc:payload_drop".into(), format!("teardown: payload of allocation {} dropped {} times", a, drops.count(payload_ids[a]))));
+                }
             }
         }
         let _ = probe_ids;
@@ -363,7 +425,7 @@ impl Sut {
     }
 }
 
-impl HistSut for Sut {
+impl<A: Al> HistSut for Sut<A> {
     type Op = Op;
     fn run(&self, hist: &[Op]) -> StepOut<Op> {
         let mut obs = Vec::with_capacity(hist.len() + 1);
@@ -378,40 +440,51 @@ impl HistSut for Sut {
     }
 }
 
-fn replay(case: &Value) -> CaseOut {
+fn replay<A: Al>(case: &Value, handles_last: bool) -> CaseOut {
     let hist: Vec<Op> = serde_json::from_value(case["history"].clone()).expect("history");
-    let out = Sut { max_handles: 8, max_allocs: 4 }.run(&hist);
+    let out = Sut::<A> { max_handles: 8, max_allocs: 4, handles_last, _a: Default::default() }.run(&hist);
     CaseOut { obs: out.obs, nontrivial: true, violation: out.violation }
 }
 
-fn main() {
-    quiet_panics();
-    let sections = vec![
+fn sections_for<A: Al>(suffix: &'static str, handles_last: bool, scale: usize) -> Vec<Section> {
+    let full: &'static str = Box::leak(format!("histories_full{}", suffix).into_boxed_str());
+    let bfs: &'static str = Box::leak(format!("histories_bfs{}", suffix).into_boxed_str());
+    let pre = format!("payload type with {}; teardown {}; ", A::NAME, if handles_last { "drops the retained std Arcs first, so the last HANDLE of each allocation must destroy the payload (checked after every single drop: count == handles left, payload dropped iff none left)" } else { "drops the handles first, then the retained std Arcs" });
+    let pre2 = pre.clone();
+    vec![
         Section {
-            name: "histories_full",
-            explore: Box::new(|cx: &Cx| {
+            name: full,
+            explore: Box::new(move |cx: &Cx| {
                 let (mh, ma, d) = match cx.tier {
-                    Tier::Quick => (4, 2, 5),
-                    Tier::Thorough => (4, 2, 6),
+                    Tier::Quick => (4, 2, 5 - scale),
+                    Tier::Thorough => (4, 2, 6 - scale),
                 };
-                cx.rule("histories_full", &format!("all histories of length <= {} over {{from value/Arc/Option<Arc> (new or existing allocation), default, clone, take, transpose (both ways), into_opaque, into_arc, drop}} on a pool of <= {} handles (CArc, CArcSome, typed and opaque) over <= {} allocations; oracle after every step: strong_count == 1 + live handles per allocation, payload not dropped, every handle points to its allocation (API and C view), function pointers are those of the creating instantiation, empty handles have a null instance; teardown: payload dropped exactly once after the last handle and the retained Arc; allocator balanced", d, mh, ma));
-                hist::full(&Sut { max_handles: mh, max_allocs: ma }, d, cx, "histories_full");
+                cx.rule(full, &format!("{}all histories of length <= {} over {{from value/Arc/Option<Arc> (new or existing allocation), default, clone, take, transpose (both ways), into_opaque, into_arc, drop}} on a pool of <= {} handles (CArc, CArcSome, typed and opaque) over <= {} allocations; oracle after every step: strong_count == 1 + live handles per allocation, payload not dropped, every handle points to its allocation (API and C view), function pointers are those of the creating instantiation, empty handles have a null instance; teardown: payload dropped exactly once; allocator balanced", pre, d, mh, ma));
+                hist::full(&Sut::<A> { max_handles: mh, max_allocs: ma, handles_last, _a: Default::default() }, d, cx, full);
             }),
-            replay: Box::new(replay),
+            replay: Box::new(move |c| replay::<A>(c, handles_last)),
         },
         Section {
-            name: "histories_bfs",
-            explore: Box::new(|cx: &Cx| {
+            name: bfs,
+            explore: Box::new(move |cx: &Cx| {
                 let (mh, ma, d) = match cx.tier {
                     Tier::Quick => (5, 2, 10),
                     Tier::Thorough => (6, 3, 14),
                 };
-                cx.rule("histories_bfs", &format!("same alphabet, pool <= {}, BFS to depth {} with dedup on the sorted multiset of (handle kind, allocation) and the number of allocations", mh, d));
-                hist::bfs(&Sut { max_handles: mh, max_allocs: ma }, d, cx, "histories_bfs", 3_000_000);
+                cx.rule(bfs, &format!("{}same alphabet, pool <= {}, BFS to depth {} with dedup on the sorted multiset of (handle kind, allocation) and the number of allocations", pre2, mh, d));
+                hist::bfs(&Sut::<A> { max_handles: mh, max_allocs: ma, handles_last, _a: Default::default() }, d, cx, bfs, 3_000_000);
             }),
-            replay: Box::new(replay),
+            replay: Box::new(move |c| replay::<A>(c, handles_last)),
         },
-    ];
+    ]
+}
+
+fn main() {
+    quiet_panics();
+    let mut sections = sections_for::<()>("", false, 0);
+    sections.extend(sections_for::<()>("_handles_last", true, 0));
+    sections.extend(sections_for::<A64>("_align64", false, 1));
+    sections.extend(sections_for::<A64>("_align64_handles_last", true, 1));
     explore::run_main(CheckDef {
         property: "C10",
         level: "model_checking",
